@@ -219,9 +219,19 @@ class Cases:
             yield "float", f, None, []
         yield "double", 100.0, None, [("1E2", True), ("+100", True), (" 100.0 ", True), ("1.0e2", True)]
         yield "decimal", decimal.Decimal("5"), None, [("+5", True), ("5.000", True), (" 05 ", True)]
-        for sp, v in (("inf", math.inf), ("-inf", -math.inf), ("nan", math.nan)):
+        for sp, v in (("inf", math.inf), ("-inf", -math.inf), ("nan", math.nan), ("nan", float("nan")), ("nan", math.inf - math.inf),
+                      ("inf", float("inf")), ("-inf", -float("1e999"))):
+            # not only the singletons math.nan / math.inf: a NaN read from a document or computed is another object
             yield "double", v, ("floatspecial", sp), []
             yield "float", v, ("floatspecial", sp), []
+        # the same instant written with different offsets, one after the other (aware times compare / hash by instant)
+        for h, offs in ((12, (60, 0, -60, 330, -210)), (0, (0, 60, 840)), (23, (-60, 0, 59))):
+            for off in offs:
+                total = (h * 60 + off) % 1440
+                t = datetime.time(total // 60, total % 60, 30, tzinfo=tzobj(pytz, off))
+                yield "time", t, None, []
+                dt = datetime.datetime(2024, 3, 10, total // 60, total % 60, 30, tzinfo=tzobj(pytz, off))
+                yield "dateTime", dt, None, []
         # --- date/time (isodate: hypothesis codecs)
         for _ in range(N):
             tzm = rng.choice([None, 0, 0, rng.randrange(-840, 841), 60, -300, 330])
